@@ -8,7 +8,7 @@
               rangeKind/lo/hi: "dispatched_ports" of the topology ("empty" = "-", "all", "range");
               ovLo/ovHi: override of the router configuration (-1 = none);
               rangeVsInternal: whether SetPortRange came "before" or "after" AddInternalInterface
-     deliver  kind field dst disp egress port addr want inst
+     deliver  kind cut field dst disp egress port addr want inst
               the packet (kind, carried port / identifier, "ip" | "svc-..."), what the fast path did
               with it and the underlay (addr, port) the internal link resolved; want: the host
               address for "ip"; inst: the registered "addr:port" instances for a service
@@ -40,7 +40,8 @@ Deliver ==
     /\ UNCHANGED <<rng, rel>>
     /\ IF R.disp # "forward" \/ R.egress # 0 \/ R.port < 0
          THEN /\ UNCHANGED ndel
-              /\ IF R.kind = "err-udp" /\ R.field = 0 THEN UNCHANGED drifted
+              /\ IF (R.kind = "err-udp" /\ R.field = 0) \/ R.kind \in NoPort \cup Partial \/ (Len(R.inst) = 0 /\ R.dst # "ip")
+                   THEN UNCHANGED drifted
                  ELSE Drift("not-delivered:" \o R.kind \o ":" \o R.disp)
        ELSE /\ ndel' = ndel + 1
             /\ IF R.dst = "ip"
